@@ -210,6 +210,10 @@ def correspondence(ctx):
     for b in rb:
         for n in range(1, (4 if ctx.quick else 5) + 1):
             cases.append([n, b])
+    # directed: unary-only bases with long operator names (one tree line longer than 80 characters: every tree must still be one
+    # line of orig_trees_<n>.txt), a basis whose symbols are all one character long (parameter names a0, a1 are longer than any of them)
+    cases += [[7, [["x", "a"], ["log10_abs"], []]], [8, [["x", "a"], ["sqrt_abs"], []]], [9, [["x"], ["tenexp"], []]]]
+    cases += [[n, [["x", "a"], [], ["+", "*"]]] for n in (1, 3, 5)] + [[3, [["a"], [], ["+"]]]]
     rc, out, err = esrv.run_py(ctx.scratch, IMPL, ["gen"], stdin=json.dumps(cases), timeout=3000)
     if rc != 0:
         rep.fail("broken-correspondence", "generation driver failed", "C01:gen-driver", observed=err[-2000:], theorem="generation sweep")
